@@ -217,13 +217,16 @@ const TOKENS: &[&str] = &[
     "true", "false", "é", "€", "😀", "b", "aa", ",,", "007", "4294967296", "-2147483649",
     "18446744073709551616", "-9223372036854775809", "340282366920938463463374607431768211456",
     "-170141183460469231731687303715884105729", "x", "\r", "\u{b}", "\u{c}",
+    // multi-byte chars whose continuation bytes are an ASCII whitespace/delimiter byte | 0x80, or a
+    // Latin-1 space (0x85 NEL, 0xA0 NBSP): a byte-wise trim/strip that confuses them cuts inside a char
+    "à", "\u{a0}", "Å", "É", "Ê", "\u{8d}", "😅", "\u{2028}", "\u{85}", "ᄀ", "\u{ac}",
 ];
 
 const FIXED_PATS: &[&str] = &[
     "", "a", "aa", "ab", "aab", ",", ",,", " ", "é", "€a", "-", "true", "b", "aba", "abab", "0",
     "😀", "a,",
 ];
-const FIXED_CHARS: &[char] = &['a', ',', '€', ' ', 'é', '😀', '-', 'b', '0', '\n'];
+const FIXED_CHARS: &[char] = &['a', ',', '€', ' ', 'é', '😀', '-', 'b', '0', '\n', 'à', '\u{a0}', '😅'];
 
 /// reference model used by the planner only: the remainder as a byte range of the text,
 /// advanced with std's own string methods
@@ -420,7 +423,7 @@ impl World for ParserWorld {
         let mut toks: Vec<&str> = Vec::new();
         let ntok = rng.range(2, 9);
         for _ in 0..ntok {
-            let limit = if rng.chance(1, 4) { TOKENS.len() } else { 22 };
+            let limit = if rng.chance(1, 3) { TOKENS.len() } else { 22 };
             toks.push(TOKENS[rng.below(limit as u64) as usize]);
         }
         let max_chars = if thorough { 28 } else { 16 };
